@@ -149,7 +149,7 @@ func Scribble(rs []*result.CertRevocationResult) {
 }
 
 // IsHTTPKind reports whether a URL kind is served over the simulated network.
-func IsHTTPKind(k string) bool { return k == "http" || k == "HTTP" }
+func IsHTTPKind(k string) bool { return k == "http" || k == "HTTP" || k == "httpq" }
 
 // Outcome is everything observed from one execution.
 type Outcome struct {
@@ -423,6 +423,10 @@ func RouteOf(route string) (pos int, typ string, slot int, part string, ok bool)
 		return 0, "", 0, "", false
 	}
 	typ = string(t)
+	if i := strings.Index(path, "?partition="); i >= 0 {
+		// query-distinguished distribution points share slot 0's host
+		fmt.Sscanf(path[i+len("?partition="):], "%d", &slot)
+	}
 	switch {
 	case strings.HasPrefix(path, "base"):
 		part = "base"
